@@ -48,7 +48,11 @@ impl VArray {
 
     /// Maps the indices of a multi-dimensional array element into a flat index.
     pub fn abs_index(&self, indices: &[i32]) -> Result<usize, SubscriptOutOfRangeError> {
-        debug_assert_eq!(indices.len(), self.dimensions.len());
+        if indices.len() != self.dimensions.len() {
+            // e.g. DIM A(3) : A(1, 2) = 4, or an array parameter used with
+            // another number of subscripts than the array it is bound to
+            return Err(SubscriptOutOfRangeError);
+        }
         let mut index: i32 = 0;
         let mut i: i32 = indices.len() as i32 - 1;
         let mut multiplier: i32 = 1;
